@@ -176,6 +176,68 @@ def reuse_suite(rnd, N, findings):
     return sr
 
 
+def interrupted_suite(rnd, N, findings):
+    """runs stopped by Ctrl-C inside a proposal: the stored attributes still describe what was completed"""
+    _, S, MM, D = _hm()
+    _Stop = _stop_class()
+    si = Suite("C07.interrupted", "RWMH/HMC runs in which the target raises KeyboardInterrupt at its k-th misfit call (inside a later proposal), HDF5 and NPY, "
+               "thinning 1-3: acceptance_rate = accepted / completed proposals (counted from the instrumented sampler's completed transitions), write_index = "
+               "number of stored columns = ceil(completed / t), columns = the completed chain states; non-trivial = >= 2 completed proposals")
+    with scratch() as tmp:
+        for ci in range(N):
+            cfg = {"sampler": rnd.choice(["RWMH", "HMC"]), "target": rnd.choice(["normaldiag", "laplace"]), "boxed": False, "seed": rnd.randrange(1 << 30),
+                   "stepsize": rnd.choice([0.1, 0.5, 1.5]), "autotuning": rnd.random() < 0.3, "mass": rnd.choice(["unit", "diag"]), "integrator": rnd.choice(["lf", "3s", "4s"]),
+                   "n": rnd.choice([1, 3]), "randomize": rnd.random() < 0.5, "d": rnd.choice([1, 2, 3])}
+            t = rnd.choice([1, 2, 3])
+            P = t * rnd.choice([4, 8, 10])
+            k = rnd.randint(2, 40)
+            ext = rnd.choice(["h5", "npy"])
+            s, dist, q0, kw = build(rnd.randrange(1 << 30), cfg)
+            fn = os.path.join(tmp, f"i{ci}.{ext}")
+            stim = {"config": cfg, "proposals": P, "thinning": t, "interrupt_at_misfit_call": k, "backend": ext}
+            try:
+                with quiet(), np.errstate(all="ignore"):
+                    s.sample(fn, _Stop(dist, k), initial_model=q0.copy(), proposals=P, online_thinning=t, overwrite_existing_file=True, disable_progressbar=True, **kw)
+                arr, attrs = read_all(fn)
+            except Exception as e:
+                si.case(stim, nontrivial=False)
+                if isinstance(e, (FileNotFoundError, ValueError)) and not getattr(s, "_v_transitions", []):
+                    # nothing was completed: a file without columns cannot be opened for reading (C10: a burn-in of b is refused iff n <= b, here 0 <= 0;
+                    # the NPY back end creates its data file with the first stored column)
+                    si.count("interrupted before the first proposal completed (nothing to read back)")
+                    continue
+                findings.append(Finding("C07", f"interrupted run could not be completed/read back: {e!r}", {"kind": "interrupted", "problem": "raised"},
+                                        {"oracle": "interrupted", "stimulus": stim, "error": repr(e)}))
+                continue
+            trans = getattr(s, "_v_transitions", [])
+            completed = len(trans)
+            n_acc = sum(1 for tr in trans if tr["post"]["accepted"] == tr["pre"]["accepted"] + 1)
+            si.case(stim, nontrivial=completed >= 2, sample={"completed": completed, "accepted": n_acc, "columns": int(arr.shape[1])} if len(si.samples) < 3 else None)
+            si.count(f"sampler={cfg['sampler']}")
+            si.count("interrupted before the end" if completed < P else "ran to the end")
+            problems = []
+            want_cols = (completed + t - 1) // t
+            if arr.shape[1] != want_cols:
+                problems.append(f"file holds {arr.shape[1]} columns after {completed} completed proposals with thinning {t} (expected {want_cols})")
+            else:
+                states = [np.vstack([tr["post"]["model"], [[tr["post"]["x"]]]]) for tr in trans]
+                for j in range(want_cols):
+                    if not np.array_equal(arr[:, [j]], states[j * t], equal_nan=True):
+                        problems.append(f"column {j} is not the chain state after proposal {j * t}")
+                        break
+            rate = float(attrs.get("acceptance_rate", float("nan"))) if not isinstance(attrs.get("acceptance_rate"), str) else float("nan")
+            want_rate = (n_acc / completed) if completed else 0.0
+            if not common.close(rate, want_rate, 1e-15, 0):
+                problems.append(f"attribute acceptance_rate = {attrs.get('acceptance_rate')!r}, accepted/completed = {n_acc}/{completed}")
+            if int(attrs.get("write_index", -1)) != arr.shape[1]:
+                problems.append(f"attribute write_index = {attrs.get('write_index')!r} for {arr.shape[1]} stored columns")
+            if problems:
+                si.disagree(stim, "attributes describe the completed part of the run", problems, problems[0])
+                findings.append(Finding("C07", problems[0], {"kind": "interrupted", "problem": problems[0].split(" ")[0] + " " + problems[0].split(" ")[1]},
+                                        {"oracle": "interrupted", "stimulus": stim, "problems": problems}))
+    return si
+
+
 def divisors(P):
     return [t for t in range(1, P + 1) if P % t == 0]
 
@@ -198,6 +260,8 @@ def run(tier, seed):
                    "n": rnd.choice([1, 3, 6]), "randomize": rnd.random() < 0.5}
             cfg["d"] = 2 if cfg["target"] == "himmelblau" else rnd.choice([1, 2, 3, 5])
             cfg["earlier_runs"] = rnd.choice([0, 0, 1, 2])
+            cfg["same_path"] = cfg["earlier_runs"] > 0 and rnd.random() < 0.5
+            cfg["overwrite_flag"] = rnd.choice(["True", "True", "numpy.True_", "1"])
             if cfg["target"] == "uniform":
                 cfg["boxed"] = True
             bseed = rnd.randrange(1 << 30)
@@ -213,10 +277,13 @@ def run(tier, seed):
                     with quiet(), np.errstate(all="ignore"):
                         # history: the same sampler object has already been used for earlier runs (other file, other length)
                         for hrun in range(cfg["earlier_runs"]):
-                            s.sample(os.path.join(tmp, f"c{ci}_{t}_pre{hrun}.{ext}"), dist, initial_model=q0.copy(), proposals=[7, 4][hrun % 2],
+                            # ... possibly at the very path of the run under test, which then has to replace that file
+                            pre = fn if (cfg["same_path"] and hrun == cfg["earlier_runs"] - 1) else os.path.join(tmp, f"c{ci}_{t}_pre{hrun}.{ext}")
+                            s.sample(pre, dist, initial_model=q0.copy(), proposals=[7, 4][hrun % 2],
                                      online_thinning=1, overwrite_existing_file=True, disable_progressbar=True, **kw)
                         s._v_transitions = []
-                        s.sample(fn, dist, initial_model=q0.copy(), proposals=P, online_thinning=t, overwrite_existing_file=True,
+                        s.sample(fn, dist, initial_model=q0.copy(), proposals=P, online_thinning=t,
+                                 overwrite_existing_file={"True": True, "numpy.True_": np.True_, "1": 1}[cfg["overwrite_flag"]],
                                  disable_progressbar=True, **kw)
                     arr, attrs = read_all(fn)
                     per_backend[ext] = (arr, attrs, s, dist)
@@ -229,6 +296,8 @@ def run(tier, seed):
                 st.count(f"sampler={cfg['sampler']}")
                 st.count(f"t={'1' if t == 1 else '>1'}")
                 st.count(f"earlier runs on the same sampler object={cfg['earlier_runs']}")
+                if cfg["same_path"]:
+                    st.count(f"replaces an existing file, overwrite_existing_file={cfg['overwrite_flag']}")
                 if t == 1:
                     unthinned = arr
                 problems = []
@@ -284,7 +353,8 @@ def run(tier, seed):
         if not ok:
             st.disagree(stim, {"stored_proposals": idx}, {"columns": int(arr.shape[1])}, "file differs from the model's thinned chain")
     sr = reuse_suite(rnd, 60 if thorough else 16, findings)
-    return [st, sr], findings
+    si = interrupted_suite(rnd, 80 if thorough else 24, findings)
+    return [st, sr, si], findings
 
 
 def search(tier, seed, broken):
